@@ -26,7 +26,8 @@ func init() {
 		Rule: "FinalizeToken(s) on (request state, response) pairs for types 1,2,3,5: honest responses, every single-bit flip of each honest response (exhaustive), the full cross-pairing matrix of K states x K responses over 2-3 issuer keys, truncations/extensions, " +
 			"and for type 5 every single-element drop, duplication, adjacent and seeded swaps, appended element, foreign proof. Universal oracle on every call: a nil error implies the token verifies under the key the request was created for (circl FullEvaluate / crypto/rsa.VerifyPSS) and carries that request's type, nonce, SHA-256(challenge) and key id. " +
 			"Rejection oracle: every listed corruption must return an error. Lifecycle part: up to 4 requests of one type outstanding at once, created and finalized (garbage, bit-flipped and honest responses, evaluated from the wire bytes captured at creation) in seeded interleavings; every honest finalization must succeed with the token of its own request. distinct_nontrivial = distinct (type, corruption class, state, position) keys",
-		Floors: []string{"accepted_valid", "rejected_by_decode", "rejected_by_proof", "rejected_by_count", "rejected_by_aead", "rejected_by_rsa_check",
+		// (the rejected_by_* classes are recognised from error texts and therefore only reported, not required)
+		Floors: []string{"accepted_valid",
 			"type1_bitflips", "type2_bitflips", "type3_bitflips", "type5_bitflips", "cross_pair_rejected", "type5_drop_rejected", "type5_dup_rejected", "type5_swap_rejected", "lifecycle_sequences", "lifecycle_honest_finalized", "odd_salt_lengths", "client_object_reused_across_keys"},
 		Assumptions: []string{"single-bit flips change the mathematical response (argued in DESIGN.md C02); nonces in a batch are distinct so swaps are never of equal elements"},
 		Run:         runC02,
